@@ -308,6 +308,32 @@ static void io_readers() {
     io("dump-reader", "force", ratio3(t.getBead(0)->getF(), FFo), UC.convert(m.force_unit, cu.force_unit), NaN, "declared: kcal/mol/A (thermochemical calorie in LAMMPS and in UnitConverter)", b);
     io("dump-reader", "box", t.getBox()(0, 0) / FB, UC.convert(m.distance_unit, cu.distance_unit), NaN, "", b);
   }
+  {  // the three coordinate flavours of the dump reader (x, xu unwrapped, xs
+     // scaled by the box edge) and the stored box must use one A->nm factor
+    const V3 FR(0.15625, 0.3125, 0.46875);  // fractions: FR*FB = FP
+    auto flavour = [&](const char *cols, const V3 &val, const char *tag) {
+      snprintf(b, sizeof b, "ITEM: TIMESTEP\n10\nITEM: NUMBER OF ATOMS\n1\nITEM: BOX BOUNDS pp pp pp\n0 %f\n0 %f\n0 %f\nITEM: ATOMS id type %s\n1 1 %.8f %.8f %.8f\n", FB, FB, FB, cols, val[0], val[1], val[2]);
+      Topology t; rd(tag, b, t);
+      return std::make_pair(t.getBead(0)->getPos(), t.getBox()(0, 0) / FB);
+    };
+    const V3 FPp(12.5, 25.0, 37.5);
+    auto rx = flavour("x y z", FPp, "dump"), ru = flavour("xu yu zu", FPp + V3(FB, -2 * FB, 3 * FB), "dump"), rs = flavour("xs ys zs", FR, "dump");
+    double fx = ratio3(rx.first, FPp), fu = ratio3(ru.first, FPp + V3(FB, -2 * FB, 3 * FB)), fs = ratio3(rs.first, FR * FB), fb = rs.second;
+    R.eval("io/dump-reader-coordinate-flavours", 2);
+    nt("io/dump-reader/flavours");
+    J w; w.d("factor_x", fx).d("factor_xu", fu).d("factor_xs_per_fraction_times_edge", fs).d("factor_box", fb).s("file_xs", b);
+    // component-wise as well (a swap of two columns can leave the least-squares factor nearly unchanged)
+    bool ubad = false, sbad = false;
+    const V3 FU = FPp + V3(FB, -2 * FB, 3 * FB);
+    for (int k = 0; k < 3; ++k) {
+      if (!(std::fabs(ru.first[k] - FU[k] * fx) <= 1e-9)) ubad = true;
+      if (!(std::fabs(rs.first[k] - FR[k] * FB * fx) <= 1e-9)) sbad = true;
+    }
+    if (ubad || !agree4(fu, fx)) R.violation("io/dump-reader/unwrapped-position-factor", "LAMMPSDumpReader: the xu/yu/zu columns are not converted like x/y/z (Angstrom -> nm)", w);
+    if (sbad || !agree4(fs, fx) || !agree4(fs, fb)) R.violation("io/dump-reader/scaled-position-factor", "LAMMPSDumpReader: xs/ys/zs * box edge is not converted with the Angstrom -> nm factor of the x/y/z columns and of the stored box", w);
+    g_io.push_back({"dump-reader", "unwrapped-position", fu, UC.convert(DistanceUnit::angstroms, cu.distance_unit), NaN, "xu yu zu columns", ""});
+    g_io.push_back({"dump-reader", "scaled-position", fs, UC.convert(DistanceUnit::angstroms, cu.distance_unit), NaN, "xs ys zs columns times box edge [A]", ""});
+  }
   {
     DLPOLYTrajectoryReader m;
     snprintf(b, sizeof b, "title\n%10d%10d%10d\ntimestep%10d%10d%10d%10d%12.6f%12.6f\n%20.10f%20.10f%20.10f\n%20.10f%20.10f%20.10f\n%20.10f%20.10f%20.10f\n%-8s%10d%12.6f%12.6f\n%20.10f%20.10f%20.10f\n%20.10f%20.10f%20.10f\n%20.10f%20.10f%20.10f\n",
